@@ -3,7 +3,7 @@ import os
 import re
 import subprocess
 
-from .. import corpus, engines as E, harness as H
+from .. import build, corpus, engines as E, harness as H
 from . import common
 from .c02 import C
 
@@ -40,6 +40,61 @@ def run(ctx):
             js, _ = E.iso_jobs(ctx, s, c, lens, witness_len=(2 if (s.name == 'lit1' and c.name == 'r') else None), timeout=(240 if quick else 1200))
             jobs += js
     ctx.run_cbmc(jobs)
+    prefix_link(ctx)
     common.std_assumptions(ctx)
     ctx.assume('non-interference argument: if stepping instance B changes no byte of instance A (asserted by snapshot comparison) and a scanner has no writable static objects (symbol table), any interleaving or thread schedule of distinct instances equals running each alone; libc (malloc, stdio) is assumed thread-safe')
-    ctx.out_of_bound.append('instruction-level thread schedules (cbmc thread support does not scale to two scanners); C++ lexer objects; link of differently prefixed scanners is checked under C19')
+    ctx.out_of_bound.append('instruction-level thread schedules (cbmc thread support does not scale to two scanners); C++ lexer objects; prefixed scanners: symbol-table facts over the listed option sets (the c99 back end does not rename its new API functions: finding F17, C19)')
+
+
+PREFIX_SETS = [
+    ('nr', []), ('nr_lineno_stack', ['yylineno', 'stack']), ('nr_array', ['array']), ('nr_tables', ['tables-file="t.tables"']),
+    ('nr_bridge', ['bison-bridge']), ('nr_locations', ['bison-bridge', 'bison-locations']),
+    ('r', ['reentrant']), ('r_lineno_stack', ['reentrant', 'yylineno', 'stack']), ('r_extra', ['reentrant', 'extra-type="int *"']),
+    ('r_bridge', ['reentrant', 'bison-bridge']), ('r_locations', ['reentrant', 'bison-bridge', 'bison-locations']),
+    ('r_tables', ['reentrant', 'tables-file="t.tables"']), ('r_debug', ['reentrant', 'debug']),
+]
+
+
+def prefix_link(ctx):
+    """Differently prefixed scanners must not define a common external symbol: for each option set two scanners
+    (prefixes aa / bb) are generated and compiled; every external symbol either defines must carry its prefix,
+    no symbol may be defined by both, and ld -r must combine them."""
+    tree = ctx.ensure_tree()
+    wd = ctx.subdir('prefix_link')
+    sets = PREFIX_SETS if ctx.tier != 'quick' else PREFIX_SETS
+    for tag, opts in sets:
+        defs = {}
+        ok = True
+        why = []
+        for pfx in ('aa', 'bb'):
+            base = '%s_%s' % (tag, pfx)
+            text = ('%%option noyywrap prefix="%s" %s\n%%{\n#define YYSTYPE int\ntypedef struct { int l; } vp_lloc; \n#define YYLTYPE vp_lloc\n%%}\n%%%%\nab return 1;\n.|\\n return 2;\n%%%%\n'
+                    % (pfx, ' '.join(opts)))
+            with open(os.path.join(wd, base + '.l'), 'w') as fh:
+                fh.write(text)
+            rc, so, se = build.flex_run(tree, ['-L', '-o', base + '.c', base + '.l'], cwd=wd)
+            if rc != 0:
+                ok = False; why.append('flex rc=%s %s' % (rc, se[-150:])); break
+            p = subprocess.run(['gcc', '-c', '-w', '-o', base + '.o', base + '.c'], cwd=wd, stdout=subprocess.PIPE, stderr=subprocess.PIPE)
+            if p.returncode != 0:
+                ok = False; why.append('does not compile: ' + p.stderr.decode('latin-1')[:200]); break
+            q = subprocess.run(['nm', '-g', '--defined-only', base + '.o'], cwd=wd, stdout=subprocess.PIPE)
+            syms = [l.split()[-1] for l in q.stdout.decode().splitlines() if l.strip()]
+            defs[pfx] = syms
+            bad = [x for x in syms if not x.startswith(pfx)]
+            if bad:
+                ok = False; why.append('prefix %s: external symbols without the prefix: %s' % (pfx, bad[:6]))
+        if len(defs) == 2:
+            both = sorted(set(defs['aa']) & set(defs['bb']))
+            if both:
+                ok = False; why.append('defined by both scanners: %s' % both[:6])
+            p = subprocess.run(['ld', '-r', '-o', tag + '_both.o', tag + '_aa.o', tag + '_bb.o'], cwd=wd, stdout=subprocess.PIPE, stderr=subprocess.PIPE)
+            if p.returncode != 0:
+                ok = False; why.append('ld -r: ' + p.stderr.decode('latin-1')[:200])
+        name = 'prefix_link_' + tag
+        st = 'ok'
+        if not ok:
+            st = ctx.violation(name, 'scanners with different prefixes clash or leak unprefixed symbols (%s): %s' % (' '.join(opts) or 'default', '; '.join(why)),
+                               dict(options=opts), key=dict(entry=tag, engine='symbol-table', assertion='prefixed scanners link'))
+            st = 'violated' if st == 'violation' else 'known-finding'
+        ctx.record(name, st, engine='symbol-table', entry=tag, detail='; '.join(why) or 'all external symbols of both scanners carry their prefix; ld -r combines them')
